@@ -4,6 +4,10 @@
 //
 // Op lines of one case:
 //
+//	mode remote <fill>  (optional, before build) every resolve of this case runs over a FRESH local blockstore
+//	                  holding a <fill>/4 pseudo-random part of the blocks, backed by an exchange that serves the
+//	                  rest from the store the tree was built in and — like bitswap or any network client —
+//	                  refuses a context that is already done                                   -> "ok"
 //	build <spec>      recipe; exec builds the DAG with boxo's directory/HAMT/importer code   -> "ok"
 //	tree <dump>       block-level dump of the built DAG made by gen (same code, same recipe); exec dumps
 //	                  its own DAG, requires equality and answers "wf=true nodes=<n>"; the Lean driver
@@ -23,6 +27,7 @@ import (
 
 	"github.com/ipfs/boxo/blockservice"
 	"github.com/ipfs/boxo/blockstore"
+	"github.com/ipfs/boxo/exchange"
 	"github.com/ipfs/boxo/exchange/offline"
 	bsfetcher "github.com/ipfs/boxo/fetcher/impl/blockservice"
 	chunker "github.com/ipfs/boxo/chunker"
@@ -33,6 +38,7 @@ import (
 	uio "github.com/ipfs/boxo/ipld/unixfs/io"
 	"github.com/ipfs/boxo/path"
 	"github.com/ipfs/boxo/path/resolver"
+	blocks "github.com/ipfs/go-block-format"
 	"github.com/ipfs/go-cid"
 	"github.com/ipfs/go-datastore"
 	dssync "github.com/ipfs/go-datastore/sync"
@@ -106,15 +112,91 @@ type world struct {
 	dag  ipld.DAGService
 	res  resolver.Resolver
 	uniq int
+	// remote mode: fill in 0..3 = quarter of the blocks pre-seeded into each fresh local store; -1 = off
+	fill  int
+	nonce uint64
+}
+
+// remoteExchange serves blocks out of the store the tree was built in. Like a network client it gives up
+// when the caller's context is done.
+type remoteExchange struct {
+	remote  blockstore.Blockstore
+	fetched int
+}
+
+var _ exchange.Interface = (*remoteExchange)(nil)
+
+func (e *remoteExchange) GetBlock(ctx context.Context, c cid.Cid) (blocks.Block, error) {
+	if err := ctx.Err(); err != nil {
+		return nil, err
+	}
+	e.fetched++
+	return e.remote.Get(ctx, c)
+}
+
+func (e *remoteExchange) GetBlocks(ctx context.Context, cs []cid.Cid) (<-chan blocks.Block, error) {
+	if err := ctx.Err(); err != nil {
+		return nil, err
+	}
+	out := make(chan blocks.Block, len(cs))
+	for _, c := range cs {
+		if b, err := e.remote.Get(ctx, c); err == nil {
+			e.fetched++
+			out <- b
+		}
+	}
+	close(out)
+	return out, nil
+}
+
+func (e *remoteExchange) NotifyNewBlocks(context.Context, ...blocks.Block) error { return nil }
+func (e *remoteExchange) Close() error                                          { return nil }
+
+func resolverOver(bsrv blockservice.BlockService) resolver.Resolver {
+	fc := bsfetcher.NewFetcherConfig(bsrv)
+	fc.PrototypeChooser = dagpb.AddSupportToChooser(bsfetcher.DefaultPrototypeChooser)
+	return resolver.NewBasicResolver(fc.WithReifier(unixfsnode.Reify))
+}
+
+// resolverFor returns the resolver for the next resolve op: the shared offline one, or (remote mode) one
+// over a fresh, partially filled local blockstore + the cancellation-honouring exchange.
+func (w *world) resolverFor() (resolver.Resolver, *remoteExchange) {
+	if w.fill < 0 {
+		return w.res, nil
+	}
+	w.nonce++
+	local := blockstore.NewBlockstore(dssync.MutexWrap(datastore.NewMapDatastore()))
+	if w.fill > 0 {
+		ch, err := w.bs.AllKeysChan(w.ctx)
+		if err != nil {
+			panic(err)
+		}
+		var keys []cid.Cid
+		for c := range ch {
+			keys = append(keys, c)
+		}
+		sort.Slice(keys, func(i, j int) bool { return keys[i].KeyString() < keys[j].KeyString() })
+		r := vh.NewRand(w.nonce*0x9E37 + uint64(len(keys)))
+		for _, c := range keys {
+			if r.Intn(4) < w.fill {
+				b, err := w.bs.Get(w.ctx, c)
+				if err != nil {
+					panic(err)
+				}
+				if err := local.Put(w.ctx, b); err != nil {
+					panic(err)
+				}
+			}
+		}
+	}
+	ex := &remoteExchange{remote: w.bs}
+	return resolverOver(blockservice.New(local, ex)), ex
 }
 
 func newWorld() *world {
 	bs := blockstore.NewBlockstore(dssync.MutexWrap(datastore.NewMapDatastore()))
 	bsrv := blockservice.New(bs, offline.Exchange(bs))
-	fc := bsfetcher.NewFetcherConfig(bsrv)
-	fc.PrototypeChooser = dagpb.AddSupportToChooser(bsfetcher.DefaultPrototypeChooser)
-	f := fc.WithReifier(unixfsnode.Reify)
-	return &world{ctx: context.Background(), bs: bs, dag: merkledag.NewDAGService(bsrv), res: resolver.NewBasicResolver(f)}
+	return &world{ctx: context.Background(), bs: bs, dag: merkledag.NewDAGService(bsrv), res: resolverOver(bsrv), fill: -1}
 }
 
 func (w *world) build(s *spec) (ipld.Node, *lnode, error) {
@@ -470,6 +552,10 @@ func gen(r *vh.Rand, tier string, n int, emit func(vh.Case)) {
 			panic(fmt.Sprintf("gen: dump failed: %v", err))
 		}
 		c := vh.Case{ID: strconv.Itoa(i)}
+		if cr.Chance(1, 3) {
+			// blocks come from a remote exchange that honours context cancellation
+			c.Ops = append(c.Ops, fmt.Sprintf("mode remote %d", vh.Pick(cr, []int{0, 0, 1, 2, 3})))
+		}
 		c.Ops = append(c.Ops, "build "+strings.Join(st, " "), "tree "+strings.Join(dt, " "))
 		var ps []pth
 		allPaths(root, nil, &ps)
@@ -596,11 +682,20 @@ func exec(c vh.Case, o *vh.Out) {
 	var w *world
 	var root *lnode
 	var rootCid cid.Cid
+	fill := -1
 	for _, line := range c.Ops {
 		f := strings.Fields(line)
 		switch f[0] {
+		case "mode":
+			if len(f) == 3 && f[1] == "remote" {
+				fill = vh.Atoi(f[2])
+				o.Kind("remote-exchange")
+				o.Kind("remote-fill-" + f[2])
+			}
+			o.Emit("ok")
 		case "build":
 			w = newWorld()
+			w.fill = fill
 			s, _ := parseSpec(f[1:])
 			nd, ln, err := w.build(s)
 			if err != nil {
@@ -690,9 +785,15 @@ func exec(c vh.Case, o *vh.Out) {
 				}
 			}
 			fail := func(sig, format string, a ...any) { o.Fail(sigFor(sig, mustLoad), format, a...) }
+			res, ex := w.resolverFor()
+			defer func(ex *remoteExchange) {
+				if ex != nil && ex.fetched > 0 {
+					o.Kind("blocks-fetched-remotely")
+				}
+			}(ex)
 			switch f[0] {
 			case "rtl":
-				rc, rem, err := w.res.ResolveToLastNode(w.ctx, ip)
+				rc, rem, err := res.ResolveToLastNode(w.ctx, ip)
 				var nl *resolver.ErrNoLink
 				switch {
 				case err == nil:
@@ -724,7 +825,7 @@ func exec(c vh.Case, o *vh.Out) {
 					fail("below-file-resolved", "path %q resolved to %s", segs, rc)
 				}
 			case "rp":
-				_, lnk, err := w.res.ResolvePath(w.ctx, ip)
+				_, lnk, err := res.ResolvePath(w.ctx, ip)
 				if err == nil {
 					o.Kind("rp-ok")
 					o.Emit("ok %s", lnk.String())
@@ -742,7 +843,7 @@ func exec(c vh.Case, o *vh.Out) {
 					fail("rp-missing-name-resolved", "path %q resolved to %s", segs, lnk)
 				}
 			case "rpc":
-				nodes, err := w.res.ResolvePathComponents(w.ctx, ip)
+				nodes, err := res.ResolvePathComponents(w.ctx, ip)
 				if err != nil {
 					o.Kind("rpc-err")
 					o.Emit("err")
@@ -763,7 +864,6 @@ func exec(c vh.Case, o *vh.Out) {
 	}
 }
 
-var _ = sort.Strings
 
 func main() {
 	// helper for writing corpus files by hand: `hx dumpspec <spec tokens>` prints the build and tree lines
